@@ -507,6 +507,7 @@ func famC04(r *Run) {
 		vt := t.text(textOpts{})
 		r.addTree("G-expr-valid", t, vt, nil, modeFor(vt, nil))
 	}
+	famC04extra(r)
 }
 
 // ---- C05: no panic, always returns ----
@@ -642,6 +643,7 @@ func famC05(r *Run) {
 			r.violate("G-bytes-long", expr, nil, "panic", o.Msg)
 		}
 	}
+	famC05extra(r)
 }
 
 // ---- C06: input never modified (the generic oracle does the work) ----
@@ -667,6 +669,7 @@ func famC06(r *Run) {
 		text := t.text(textOpts{})
 		r.addTree("G-fun-shared", t, text, doc, modeFor(text, doc))
 	}
+	famC06extra(r)
 }
 
 // ---- C07: truth, logic, comparators ----
@@ -748,6 +751,9 @@ func famC08(r *Run) {
 				for _, c := range vals {
 					t := &Ex{K: "slice", A: a, B: b, C: c}
 					r.addTree(fmt.Sprintf("window-len%d", n), t, t.text(textOpts{}), arr, "exact")
+					if r.tier == "thorough" || r.rng.Intn(4) == 0 {
+						r.typedSliceTwins("typed-slice-window", t.text(textOpts{}), arr)
+					}
 				}
 			}
 		}
@@ -772,6 +778,7 @@ func famC08(r *Run) {
 					}
 					t := &Ex{K: "slice", A: a, B: b, C: c}
 					r.addTree(fmt.Sprintf("boundary-len%d", n), t, t.text(textOpts{}), arr, "exact")
+					r.typedSliceTwins("typed-slice-boundary", t.text(textOpts{}), arr)
 				}
 			}
 		}
@@ -883,6 +890,7 @@ func famC09(r *Run) {
 			}
 		}
 	}
+	famToNumber(r)
 }
 
 // ---- C10: ill-typed calls ----
@@ -1137,12 +1145,17 @@ func doReplay(path string) int {
 		return 2
 	}
 	var rp struct {
-		Expr string      `json:"expr"`
-		Doc  interface{} `json:"doc"`
+		Expr    string      `json:"expr"`
+		Doc     interface{} `json:"doc"`
+		Prelude []string    `json:"prelude"`
 	}
 	if err := json.Unmarshal(data, &rp); err != nil {
 		fmt.Println(err)
 		return 2
+	}
+	for _, p := range rp.Prelude {
+		fmt.Printf("before it:  %q (a call whose outcome is ignored)\n", p)
+		runPoison(p)
 	}
 	fmt.Printf("expression: %q\n", rp.Expr)
 	d, _ := json.Marshal(rp.Doc)
